@@ -308,6 +308,54 @@ def _report(rep, results):
     return counts
 
 
+# ---------------------------------------------------------------------------------------------------------------------
+# the rule a sweeper holds after it has been re-initialised in place (AdaptiveCollocation.switch_sweeper does exactly
+# this: `level.sweep.__init__(new_params, level)`)
+# ---------------------------------------------------------------------------------------------------------------------
+def reinit_case(arg):
+    from pySDC.core.level import Level
+    from pySDC.implementations.problem_classes.TestEquation_0D import testequation0d
+    from pySDC.implementations.sweeper_classes.generic_implicit import generic_implicit
+
+    M, qt, nt_a, nt_b, change = arg
+    out = []
+    pa = {'num_nodes': M, 'quad_type': qt, 'node_type': nt_a, 'QI': 'IE'}
+    pb = dict(pa)
+    if change == 'node_type':
+        pb['node_type'] = nt_b
+    elif change == 'quad_type':
+        pb['quad_type'] = {'RADAU-RIGHT': 'LOBATTO', 'LOBATTO': 'GAUSS', 'GAUSS': 'RADAU-LEFT', 'RADAU-LEFT': 'RADAU-RIGHT'}[qt]
+    else:
+        pb['num_nodes'] = M + 1
+    sig = {'kind': 'sweeper_reinitialised_in_place', 'M': M, 'quad_type': qt, 'node_type': nt_a, 'changed': change, 'to': pb[change]}
+    try:
+        L = Level(problem_class=testequation0d, problem_params={}, sweeper_class=generic_implicit, sweeper_params=dict(pa), level_params={'dt': 0.1}, level_index=0)
+        L.sweep.__init__(dict(pb), L)
+        want = CollBase(pb['num_nodes'], 0, 1, node_type=pb['node_type'], quad_type=pb['quad_type'])
+    except CollocationError:
+        return out
+    got = L.sweep.coll
+    bad = [k for k in ('nodes', 'weights', 'Qmat', 'Smat', 'delta_m') if not np.array_equal(np.asarray(getattr(got, k), dtype=float), np.asarray(getattr(want, k), dtype=float))]
+    bad += [k for k in ('num_nodes', 'order', 'quad_type', 'node_type', 'left_is_node', 'right_is_node') if getattr(got, k, None) != getattr(want, k, None)]
+    if bad:
+        out.append((sig, {'attributes_of_another_rule': bad, 'nodes_held': np.asarray(got.nodes).tolist(), 'nodes_of_the_configured_rule': np.asarray(want.nodes).tolist()}))
+    return out
+
+
+def reinit_cases(tier):
+    Ms = (2, 3) if tier == 'quick' else (2, 3, 5, 8)
+    out = []
+    for M in Ms:
+        for qt in QUAD_TYPES:
+            for a in NODE_TYPES:
+                for b in NODE_TYPES:
+                    if a != b:
+                        out.append((M, qt, a, b, 'node_type'))
+                out.append((M, qt, a, a, 'quad_type'))
+                out.append((M, qt, a, a, 'num_nodes'))
+    return out
+
+
 def run(rep, tier):
     rep.assumptions += [
         'the oracle takes the float nodes reported by the object as exact data (the property speaks of the rule on these nodes); it never calls pySDC or qmat',
@@ -331,6 +379,15 @@ def run(rep, tier):
         assert w < 1e-40, f'oracle self check failed: {w}'
 
     counts = _report(rep, results)
+    rcases = reinit_cases(tier)
+    seen_r = set()
+    for arg, res_ in zip(rcases, common.pmap(reinit_case, rcases, chunksize=8)):
+        for sig, det in res_:
+            key = (sig['changed'], sig['quad_type'])
+            if key not in seen_r:
+                seen_r.add(key)
+                rep.violation(sig, det, replay={'reinit': list(arg)})
+    rep.coverage['sweeper_reinit_cases'] = len(rcases)
     built = [r for r in results if r['outcome'] == 'built']
     worst = {}
     for r in built:
@@ -365,6 +422,10 @@ def run(rep, tier):
 
 
 def replay(rep, case):
+    if 'reinit' in case:
+        for sig, det in reinit_case(tuple(case['reinit'])):
+            rep.violation(sig, det, replay=case)
+        return
     r = evaluate({'node_type': case['node_type'], 'quad_type': case['quad_type'], 'M': int(case['M']), 'interval': [float(v) for v in case['interval']]})
     for sig, detail in r['fails']:
         rep.violation(sig, detail, replay=r['case'])
